@@ -124,12 +124,14 @@ type FuncSpec struct {
 	Key       string   // canonical key (filled by the resolver)
 	Names     []string // optional parameter names as written (for externals without names)
 	Requires  []*Clause
+	Assumes   []*Clause // assumed at entry of the unit, not required of callers (listed as assumptions)
 	Ensures   []*Clause
 	Modifies  []Expr
 	ModAll    bool // modifies *
 	HasMod    bool
 	Pure      bool
 	NoEffect  bool
+	Silent    bool // not an observable event (logging)
 	Trusted   string // non-empty: body not verified, reason
 	Lets      []*Let
 	Loops     []*LoopSpec
